@@ -20,6 +20,13 @@ class P(x) { l: "("; v: x; r: ")" }
 D = /\\d/
 N = /\\d/ |> `int`
 class K { d: D; w: /[ab]+/ }
+ParensB(item) = "(" >> Commas(item | "_") << ")"
+ItemsB = Commas(item | "_")
+item = /[ab]+/
+num = /[0-9]+/ |> `int`
+Commas(x) = x // ","
+Items = Commas(item | "_")
+Parens(item) = "(" >> Commas(item | "_") << ")"
 """
 # (call site, the same expression with every call replaced by the template body with the
 #  argument substituted for the parameter — None when the expansion is not finite/expressible)
@@ -74,6 +81,10 @@ SITES = [
     ('Expect(Rpt(x="a", k=`1`)) >> Rpt(x="a", k=`2`)', 'Expect("a"{1}) >> "a"{2}'),
     ('[Expect(Val(v=`1`)), Val(v=`2`)]', '[Expect("a" >> `1`), "a" >> `2`]'),
     ('let n = `1` in let m = `2` in (Rpt("a", k=n) << "b" | Rpt("a", k=m))', 'let n = `1` in let m = `2` in ("a"{n} << "b" | "a"{m})'),
+    # the SAME argument text at two call sites where a name means different things (a rule here, a parameter there)
+    ('[Items, ";" >> Parens(num)]', '[((item | "_") // ","), ";" >> ("(" >> ((num | "_") // ",") << ")")]'),
+    ('[ParensB(num), ";" >> ItemsB]', '[("(" >> ((num | "_") // ",") << ")"), ";" >> ((item | "_") // ",")]'),
+    ('[Parens(D), Items]', '[("(" >> ((D | "_") // ",") << ")"), ((item | "_") // ",")]'),
     # argument values that are equal for Python (1 == True; two structurally equal parsed objects) but are different
     # values: each instantiation has its own outcome
     ('[Expect(Val(`1`)), Val(`True`)]', '[Expect("a" >> `1`), "a" >> `True`]'),
@@ -96,7 +107,7 @@ BAD_SITES = ['Pair()', 'Pair("a", "b")', 'Pair(z="a")']
 TEXTS = [''.join(p) for L in range(0, 4) for p in itertools.product('ab1', repeat=L)] + \
     ['aa', 'a-a', 'aa-aa', 'b.-b.', 'bb.-b.', 'bcbc-bc', 'babab-ab', '!1!', '1!', '2aa', '211', '1a', '(a)', '((a))', '(a)(b)',
      '(1)(2)', '()', '(())', 'abac', 'ababac', 'ac', 'az', 'ac!', 'ab!', 'a!', 'abab', 'aba', 'ababa', 'abb', 'aaa', 'aaaa', 'aab', 'ab', 'abab', '1a1a', 'ax', 'xxa', 'aq-aq', 'bb', 'bc', 'a.', 'bb-b', 'a1', '!a!', '?b!', 'a-a1',
-     'aabbaa', '11aa11', 'xxa', 'xa', 'a', 'xxxa', '1a1aa', '1a1aa1', '1b1ba', '1a1ba', '1ab1aba', '1a1', '!b!', 'aa1', 'aab', 'aa', 'ab', '1111', 'aaaa', 'ab-ab', 'a1-a1', '!b!', 'b!b']
+     'aabbaa', '11aa11', 'a,_,b;(1,_,2)', '(1,_,2);a,_,b', '(1)a', 'a;(1)', '(1);a', 'a,b;(a,b)', '(_);_', 'xxa', 'xa', 'a', 'xxxa', '1a1aa', '1a1aa1', '1b1ba', '1a1ba', '1ab1aba', '1a1', '!b!', 'aa1', 'aab', 'aa', 'ab', '1111', 'aaaa', 'ab-ab', 'a1-a1', '!b!', 'b!b']
 
 
 def run(R):
